@@ -913,7 +913,10 @@ class C04(Oracle):
                     for (c, site, k) in st.cb_events:
                         if c == cid and k == st.dest:
                             got_ev[site] = got_ev.get(site, 0) + 1
+                    implemented = w.cb_sites(cid)
                     for site, n in exp.items():
+                        if site not in implemented:
+                            n = 0      # (a callback is only owed the notifications it has a handler for)
                         g = got_ev.get(site, 0)
                         bad = (g > n) if aborted else (g != n)
                         if bad:
